@@ -67,6 +67,7 @@ class RecDom(RecorderDomain):
         st = RecorderDomain.on_call_attempt(self, node, t, state)
         lab = t.label
         if t.role == 'body':
+            st = self._check_body_args(node, st)
             # the body may run nested output / input interceptions: they number outputs and (in replay) append them
             # - only while a scope is open; from idle they are pass-through (C09.d, by mutual induction)
             r = self.roles
@@ -87,6 +88,34 @@ class RecDom(RecorderDomain):
         if lab.startswith('libobj:random.Random.random'):
             st = st.bump(('n', 'draw'))
         return st
+
+    def _check_body_args(self, node, st):
+        """the wrapped function must be called with the decorator's own *args / **kwargs, unmodified"""
+        c = node.ast
+        root = self.g.root
+        ok = isinstance(c, ast.Call) and len(c.args) == 1 and isinstance(c.args[0], ast.Starred) and \
+            len(c.keywords) == 1 and c.keywords[0].arg is None
+        if ok:
+            a = self.eval(c.args[0].value, node.frame, st)
+            k = self.eval(c.keywords[0].value, node.frame, st)
+            rf = root.func
+            va, ka = rf.node.args.vararg, rf.node.args.kwarg
+            if va is not None and ka is not None:
+                ok = a.name == ('free', rf.qualname, va.arg) and k.name == ('free', rf.qualname, ka.arg)
+            else:
+                # analysed from a helper root: its own args / kwargs parameters
+                ok = a.kind == 'sym' and k.kind == 'sym' and a.name[0] == 'free' and k.name[0] == 'free'
+        if not ok:
+            bad = st.extra.get('body_args_modified', frozenset())
+            st = st.with_extra(body_args_modified=bad | {(node.line, norm(c))})
+        return st
+
+    def on_call_event(self, node, t, args, state):
+        if t.role == 'body':
+            r = state.env.get(('R', node.frame.id, id(node.ast)))
+            if r is not None:
+                return state.with_extra(body_result=r.name)
+        return state
 
     def on_stmt(self, node, state):
         if node.kind == 'leave' and node.info.get('mode') == 'test' and node.info['callee'].func is self.roles.sampler:
